@@ -2212,12 +2212,13 @@ func (err *SchemaError) Error() string {
 		buf.WriteString("\nSchema:\n  ")
 		encoder := json.NewEncoder(buf)
 		encoder.SetIndent("  ", "  ")
-		if err := encoder.Encode(err.Schema); err != nil {
-			panic(err)
+		if encErr := encoder.Encode(err.Schema); encErr != nil {
+			// a schema or value that JSON cannot express (NaN, an infinity, a non-string map key) is still reported
+			fmt.Fprintf(buf, "%v\n", err.Schema)
 		}
 		buf.WriteString("\nValue:\n  ")
-		if err := encoder.Encode(err.Value); err != nil {
-			panic(err)
+		if encErr := encoder.Encode(err.Value); encErr != nil {
+			fmt.Fprintf(buf, "%v\n", err.Value)
 		}
 	}
 
